@@ -1147,6 +1147,8 @@ func (u *Unit) rangeStmt(st *State, x *ast.RangeStmt, c *Ctl, k func(*State)) {
 		// exit: every key of dom0 that is still present has been seen
 		curDomE := app("select", u.fam(st, dom, ds), coll.T)
 		st.assume(fmt.Sprintf("(forall ((k %s)) (! (=> (and (select %s k) (select %s k)) (select %s k)) :pattern ((select %s k))))", ks, d0, curDomE, seen, seen))
+		// the iterated map's key set is what it was at loop entry: seen = dom0, and nseen = |seen| = |dom0|
+		st.assume(implies(app("=", curDomE, d0), app("=", nseen, c0)))
 		k(st)
 	case *types.Chan:
 		// stream of unknown length
@@ -1374,6 +1376,17 @@ func (u *Unit) returnStmt(st *State, x *ast.ReturnStmt, c *Ctl) {
 	}
 	if len(x.Results) == 0 {
 		vals = nil
+	}
+	if k, ok := u.retOrd[x]; ok {
+		// "returned#k": after the results are evaluated (bound to ret / retN), before deferred calls run
+		extra := map[string]Value{}
+		for i, v := range vals {
+			extra[fmt.Sprintf("ret%d", i)] = v
+		}
+		if len(vals) > 0 {
+			extra["ret"] = vals[0]
+		}
+		u.ghostAtWith(st, fmt.Sprintf("returned#%d", k), x.Pos(), extra)
 	}
 	c.ret(st, vals)
 }
